@@ -790,6 +790,12 @@ def conf_hook_b():
     pass
 
 
+def conf_hook_end_raises():
+    # a failing on_end_request callback: Request.close() raises inside release_serving, which must still
+    # clear the thread's serving slot
+    raise RuntimeError('on_end_request callback fails')
+
+
 def errpage_404(status, message, traceback, version):
     return 'custom 404 page: %s' % status
 
@@ -1167,7 +1173,7 @@ def build_app(which):
             '/enc': {'tools.encode.on': True, 'tools.encode.encoding': 'utf-8'},
             '/json': {'tools.json_in.on': True, 'tools.json_in.force': False},
             '/hook': {'hooks.before_finalize': conf_hook_a, 'hooks.on_end_request.1': conf_hook_b,
-                      'hooks.on_end_request.2': conf_hook_a},
+                      'hooks.on_end_request.2': conf_hook_end_raises},
             '/err': {'error_page.404': errpage_404, 'error_page.default': errpage_default},
             '/ns': {'request.methods_with_bodies': ('POST', 'PUT', 'PROPFIND'), 'request.body.maxbytes': 100000,
                     'response.headers.X-Ns': 'ns', 'request.show_mismatched_params': False},
